@@ -44,8 +44,10 @@ def _run_job(job):
             mod = __import__(hooks[0]); h = getattr(mod, hooks[1])
             setup, on_end = h.get('setup'), h.get('on_end')
         r = driver.run_harness(job['ll'], job['entry'], params=job.get('params'), env_models=models, allow_throw=allow_fn,
-                               eng_opts=job.get('eng_opts'), setup=setup, on_end=on_end, max_bugs=job.get('max_bugs', 6))
+                               eng_opts=job.get('eng_opts'), setup=setup, on_end=on_end, max_bugs=job.get('max_bugs', 6),
+                               time_limit=job.get('time_limit', 240 if TIER == 'quick' else 1500))
         r.job = {k: v for k, v in job.items() if k not in ('known',)}
+        if r.wall > 30: sys.stderr.write('slow job %.0fs: %s %s\n' % (r.wall, job['entry'], job.get('params')))
         # known-finding hits are collected on the engine; pull them through the module-level cache
         return r
     except Exception as e:
@@ -96,7 +98,10 @@ class Check:
         if r.job.get('replay', 'native') == 'native':
             try:
                 exe = s.native_for(r.job['harness'])
-                rc, out, err = driver.run_native(exe, r.entry, path, r.params)
+                # harnesses over an arbitrary-behaviour stub cannot be replayed verbatim: they name a native confirmation
+                # entry per counterexample class (real libz, real SQLite) instead
+                nentry = (r.job.get('native_entry_for') or {}).get(b['kind'], r.entry)
+                rc, out, err = driver.run_native(exe, nentry, path, r.params)
                 rep, desc = driver.classify_native(rc, out, err)
             except Exception as e:
                 rep, desc = False, 'native replay failed to build/run: %r' % (e,)
